@@ -17,7 +17,7 @@ BOUNDS = {
     'quick': 'one build_file on a/b/c/t (target depth 3) and a/t (depth 1): target and every ancestor symbolic (absent / '
              'foreign file / foreign directory with or without content) or stale (output / created directory of a '
              'previous build, optionally tampered); modes ok / raise before write / raise after write / no create / '
-             'non-JSON return; mkdir made to fail (ENAMETOOLONG) at each level; 4 spellings of the path; previous output at an '
+             'non-JSON return; mkdir made to fail (OSError ENAMETOOLONG, or the ValueError of a name with a NUL byte) at each level; 4 spellings of the path; previous output at an '
              'ancestor position of the new target (a, a/b, a/b/c) with a deeper mkdir failing, optionally followed by a failing root',
     'thorough': 'plus a sibling output in the same new directory (reservation counting) and two prefixes',
 }
@@ -34,6 +34,8 @@ SPELL = ['abs', 'rel', 'dotdot', 'slashes']
 def families(tier):
     q = [
         {'name': 'fresh', 'params': {'target': 'a/b/c/t', 'modes': MODES, 'faults': [None, 'a', 'a/b', 'a/b/c']}, 'weight': 3},
+        {'name': 'fresh', 'params': {'target': 'a/b/c/t', 'modes': ['ok', 'raise_before'], 'faults': ['a', 'a/b', 'a/b/c'],
+                                     'fault_excs': ['ValueError']}, 'weight': 1},
         {'name': 'fresh', 'params': {'target': 'a/t', 'modes': MODES, 'faults': [None, 'a']}, 'weight': 1},
         # the target's own file name is over-long (every stat / open of it fails with ENAMETOOLONG)
         {'name': 'fresh', 'params': {'target': 'a/b/c/t', 'long_name': True, 'modes': MODES, 'faults': [None]}, 'weight': 1},
@@ -200,10 +202,18 @@ def harness(eng, fam, P):
             # the reference for a target whose own name is too long: the call fails without any effect, as if creating
             # its innermost parent directory had failed
             ref_fault_path = w.p(posixpath.dirname(target))
+        # how creating that directory fails: an OSError (over-long name), or the ValueError CPython raises for a name with
+        # an embedded NUL byte
+        fexc = 'OSError'
+        if fault_path and P.get('fault_excs'):
+            fexc = P['fault_excs'][eng.choose('fault_exc', len(P['fault_excs']))]
+            eng.path_info['fault_exception'] = fexc
         if fault_path:
             def hook(op, args, mutating):
                 if op == 'mkdir' and args[0] == fault_path:
                     fired.append(1)
+                    if fexc == 'ValueError':
+                        raise ValueError('embedded null byte (injected)')
                     raise OSError(errno.ENAMETOOLONG, 'File name too long (injected)', fault_path)
             w.env.hooks.append(hook)
         try:
@@ -213,7 +223,7 @@ def harness(eng, fam, P):
             impl = ('exc', e)
         finally:
             w.env.hooks[:] = []
-        ref = ref_build_with_fault(w, state, rr, ref_fault_path)
+        ref = ref_build_with_fault(w, state, rr, ref_fault_path, fexc)
         sig = (fam, target.replace(LONG, '<256 chars>'), mode, 'fault:%s' % fault)
         oi, orf = ri.obs, rr.obs
         if fired:
@@ -276,7 +286,7 @@ def harness(eng, fam, P):
         w.close()
 
 
-def ref_build_with_fault(w, state, rr, fault_path):
+def ref_build_with_fault(w, state, rr, fault_path, fexc='OSError'):
     """Reference build in which creating `fault_path` fails: the build_file call
     raises OSError in setup and leaves none of the directories it made."""
     if fault_path is None:
@@ -301,6 +311,8 @@ def ref_build_with_fault(w, state, rr, fault_path):
                 raise FileNotFoundError(q)
             q = q2
         if fault_path in todo:
+            if fexc == 'ValueError':
+                raise ValueError('embedded null byte (reference)')
             raise OSError(errno.ENAMETOOLONG, 'File name too long (reference)', fault_path)
         return orig(self, d, view)
 
